@@ -403,7 +403,8 @@ def _check_last_chunk(prog, res, g: FuncInfo, N: str, C: str) -> None:
         if isinstance(x, ast.Attribute) and "num_records" in x.attr:
             total = unparse(x)
     if total is None:
-        raise AnalysisError("C16.R4: random reader does not refer to the number of records")
+        res.violation("C18.R2", g, g.node, "the random reader never compares its counter with the requested number of records: the last chunk is not truncated and the catalog is larger than requested", key_extra="random-no-truncation")
+        return
     results = []
 
     def run(stmts, env, conds):
